@@ -13,6 +13,13 @@ class LayerModel:
         self.layer_of_test = {}
         for tid, ts, layer, level, m, node in vworld.iter_tests(spec):
             self.layer_of_test[tid] = layer if layer is not None else 'UNIT'
+        # the tests inside classes that are run as a unit (UnitEntry): every
+        # one of them is a test of the unit's layer
+        for m, node, layer, level in vworld.iter_units(spec):
+            for ts in node['tests']:
+                self.layer_of_test['%s.%s.%s' % (
+                    m['name'], node['name'], ts['name'])] = \
+                    layer if layer is not None else 'UNIT'
 
     def short(self, full):
         if full == UNIT:
